@@ -5,7 +5,7 @@
    bounds, lists, indices, slices and histories are unbounded. *)
 From Coq Require Import ZArith List Bool String.
 From TV Require Import Common.PySlice Common.PyList Common.LSet Common.LMap Common.Harness
-  C05.Normalize C05.Model C05.Law C04.Model C04.Law C04.Proofs C04.Corr.
+  C05.Normalize C05.Model C05.Law C04.Model C04.Law C04.Proofs C04.Corr C04.DefaultProofs.
 Import ListNotations.
 Local Open Scope Z_scope.
 
@@ -134,6 +134,14 @@ Theorem dict_of_lists_law_holds_on_every_history :
     law_ndict_hist kdom kacc dom acc imn imx i m (ndict_run kv vld imn imx m ops) = [].
 Proof. exact ndict_law_hist. Qed.
 Print Assumptions dict_of_lists_law_holds_on_every_history.
+
+(* ---------- default values ---------- *)
+(* a declared default that the model lets through on the first read satisfies the invariant
+   (so a default outside the bounds / with an invalid item is refused) *)
+Theorem materialised_default_satisfies_the_invariant :
+  forall vk mn mx d l, default_list vk mn mx d = Ok l -> law_default (DfList vk mn mx d (Ok l)) = [].
+Proof. exact default_list_valid. Qed.
+Print Assumptions materialised_default_satisfies_the_invariant.
 
 (* ---------- the op types enumerate the mutating methods ---------- *)
 Theorem mutator_list_complete :
